@@ -479,6 +479,9 @@ fn sizes_for(limit: u64) -> Vec<u64> {
     v
 }
 
+/// Close to isize::MAX, the largest size a Layout can have.
+const HUGE: u64 = (isize::MAX as u64) - 63;
+
 fn gen_ops(rng: &mut Rng, limit: u64, n: usize) -> Vec<OpSpec> {
     let sizes = sizes_for(limit);
     let mut ops = Vec::new();
@@ -496,6 +499,11 @@ fn gen_ops(rng: &mut Rng, limit: u64, n: usize) -> Vec<OpSpec> {
         let align = *rng.pick(&[1u32, 8, 8, 16, 64]);
         let size = if rng.chance(1, 6) {
             1 + rng.below(limit + 2)
+        } else if rng.chance(1, 12) {
+            // A request that no machine can satisfy (the parent allocator refuses
+            // it without touching memory). Two of them in flight at once must not
+            // wrap the usage counter around.
+            HUGE - rng.below(2) * 4096
         } else {
             *rng.pick(&sizes)
         };
@@ -1041,7 +1049,7 @@ impl Harness for C19 {
         "The first run indices of a batch enumerate every sequential history of length 1..3 (limit 64) and 1..4 (limit 1000; thorough: 1..5) over 22 operations \
          (alloc/alloc_zeroed x 5 sizes, realloc of block 0|1 x 5 sizes, dealloc of block 0|1; sizes 1, 8, L/2, L, L+1), checked after every operation; all later indices are random: \
          one evaluation = one seeded operation history against a private real Alloc::new(limit), limit in {64,1000,4096,2^20}, \
-         sizes from {1,8,24,L/3,L/2,L/2+1,L-1,L,L+1,random}, ops alloc/alloc_zeroed/realloc(up/down)/dealloc, checked against a \
+         sizes from {1,8,24,L/3,L/2,L/2+1,L-1,L,L+1,random, and (1 in 14) close to isize::MAX}, ops alloc/alloc_zeroed/realloc(up/down)/dealloc, checked against a \
          reference ledger. 7 of 8 runs are sequential (1..6 ops, 1 in 64 of them 50..200; thorough 1 in 16 with 50..500), checked after every operation; 1 of 8 is \
          concurrent: 1..2 phases of 2..4 (thorough up to 16) controlled threads with 1..6 ops each, every atomic operation of \
          alloc.rs a scheduling point under a seeded policy, joined and checked at each quiescent point. The parent allocator refuses \
